@@ -644,6 +644,8 @@ WHOLE_SPECS = [
                  'def right(g, a):\n    return g[len(a) + 1:]\n<start> ::= <g> "."\n'
                  '<g> ::= <a> "=" <b> := join(str(<a>), str(<b>))\n<a> ::= r"[a-c]{1,2}" := left(str(<g>))\n'
                  '<b> ::= r"[x-z]{1,2}" := right(str(<g>), str(<a>))\n'),
+    ("unfit_regen", 'def pred(n):\n    return str(int(n) - 1)\n<start> ::= <m> "." <n>\n'
+                    '<m> ::= r"[0-9]+" := pred(str(<n>))\n<n> ::= r"[0-9]{1,2}"\n'),
     ("unsound_conv", 'def fx(a):\n    return "x"\ndef hq(g):\n    return "q"\n<start> ::= <g> "-"\n'
                      '<g> ::= r"[a-z]" := fx(str(<a>))\n<a> ::= r"[pq]" := hq(str(<g>))\n'),
 ]
@@ -1045,6 +1047,23 @@ def _witness_cases(run: Run) -> list[tuple]:
     impl, req = whole_case(grammar, spec_json(grammar), t2, [(t2.children[0].children[0].sources[0], new_body)], list(fl.calls))
     out.append(("witness", ["generator_child_source:in_sources:parse"], impl, req, "witness:generator_child",
                 dict(WHOLE_SPECS)["gen_child"]))
+    # the re-run of a generator after its argument changed returns a value that does not fit the rule ("-1" under
+    # r"[0-9]+"): the function must raise, never keep the old text next to the new argument (seeded change C16-1)
+    grammar, _ = gio.parse_spec(dict(WHOLE_SPECS)["unfit_regen"])
+    for seed in range(40):
+        random.seed(seed)
+        with CallLog() as fl:
+            try:
+                t = grammar.fuzz("<start>", 10)
+            except Exception:  # noqa: BLE001 — <n> = "0": the fresh value does not fit either
+                continue
+        if all(c[2] is not None for c in fl.calls) and t.children[0].sources:
+            break
+    for word in ("0", "00"):
+        arg = t.children[0].sources[0]
+        impl, req = whole_case(grammar, spec_json(grammar), t, [(arg, grammar.parse(word, "<n>"))], list(fl.calls))
+        out.append(("unfit_regen", ["plain:in_sources:parse"], impl, req, "fixed:unfit_regen",
+                    dict(WHOLE_SPECS)["unfit_regen"]))
     # C16_derive_param_writable_breaks_inv: the parameter of <m> is itself generator-defined; crossover of <m>
     grammar, _ = gio.parse_spec(dict(WHOLE_SPECS)["const_param"])
     random.seed(0)
